@@ -779,6 +779,11 @@ fn guard_script(rng: &mut Rng, log: &mut Vec<String>) -> Result<u8, String> {
         }
         drop(g);
         log.push("write guard dropped".into());
+        // C19 at this quiescent moment: some subscribers own a granted, not yet polled lock
+        let counts = (ob.observable_count(), ob.subscriber_count(), ob.strong_count());
+        if counts != (2, k, 2 + k) {
+            return Err(format!("[C19|C16] after the write guard was dropped (observable_count, subscriber_count, strong_count) = {counts:?}, live = (2, {k}, {})", 2 + k));
+        }
         for i in 0..k {
             if let Some(f) = &lock_flags[i] {
                 if observed[i] < version && !f.woken() {
@@ -854,32 +859,55 @@ fn guard_script(rng: &mut Rng, log: &mut Vec<String>) -> Result<u8, String> {
             drop(guard_ob);
             drop(guard_sub);
             log.push("read guard dropped".into());
-            if !fw1.woken() {
-                return Err("a writer waiting for the lock was not woken when the read guard was dropped".into());
+            // "a writer waiting for the lock is woken when the lock is released": at least one of the
+            // waiting writers (which one is the lock's business)
+            if !fw1.woken() && !(two_writers && fw2.woken()) {
+                return Err("no waiting writer was woken when the read guard was dropped".into());
             }
-            let (_f, wk) = flag_waker();
-            match w1.as_mut().poll(&mut Context::from_waker(&wk)) {
-                Poll::Ready(p) => prev = p.val(),
-                Poll::Pending => return Err("the waiting set() is still pending after the read guard was dropped".into()),
-            }
-            log.push(format!("set completed -> {prev:?}"));
-            if prev != value {
-                return Err(format!("set returned {prev:?}, previous value is {value:?}"));
-            }
-            value = v;
-            version += 1;
-            if two_writers {
-                if !fw2.woken() {
-                    return Err("the second waiting writer was not woken after the first one finished".into());
+            // drive the waiting writers to completion, alternating, with a logical bound
+            let mut got1: Option<Val> = None;
+            let mut got2 = !two_writers;
+            let mut order = vec![];
+            for _ in 0..12 {
+                if got1.is_none() {
+                    let (_f, wk) = flag_waker();
+                    if let Poll::Ready(p) = w1.as_mut().poll(&mut Context::from_waker(&wk)) {
+                        got1 = Some(p.val());
+                        order.push(1);
+                    }
                 }
-                let (_f, wk) = flag_waker();
-                if w2.as_mut().poll(&mut Context::from_waker(&wk)).is_pending() {
-                    return Err("the second waiting writer is still pending".into());
+                if !got2 {
+                    let (_f, wk) = flag_waker();
+                    if w2.as_mut().poll(&mut Context::from_waker(&wk)).is_ready() {
+                        got2 = true;
+                        order.push(2);
+                    }
                 }
-                value = v2;
-                version += 1;
-                log.push("update completed".into());
+                if got1.is_some() && got2 {
+                    break;
+                }
             }
+            let Some(p1) = got1 else {
+                return Err("the waiting set() is still pending after the read guard was dropped and 12 further polls".into());
+            };
+            if !got2 {
+                return Err("the second waiting writer is still pending after the read guard was dropped and 12 further polls".into());
+            }
+            log.push(format!("set completed -> {p1:?}; completion order {order:?}"));
+            prev = p1;
+            if order.first() == Some(&2) {
+                // the update ran first: the set saw its value
+                if prev != v2 {
+                    return Err(format!("set returned {prev:?} although the update that stored {v2:?} completed before it"));
+                }
+                value = v;
+            } else {
+                if prev != value {
+                    return Err(format!("set returned {prev:?}, previous value is {value:?}"));
+                }
+                value = if two_writers { v2 } else { v };
+            }
+            version += if two_writers { 2 } else { 1 };
             drop(holder_sub);
         }
         for i in 0..k {
